@@ -13,9 +13,9 @@
 //	              spec/PlacementTrace.tla does that inside TLC.
 //	-mode synth : SELF-TEST of the round-level part of spec/PlacementTrace.tla. Fabricates a handful of
 //	              OFFERS rounds with a toy allocator (NOT AliECS code), some correct, some broken in a
-//	              chosen way (P1..P5, panic), in the exact line format the whole-core simulation will
-//	              emit. Says nothing about the real scheduler; the expected verdict per round is
-//	              written to -expect.
+//	              chosen way (P1..P5, panic), in the line format lib/props/C05.py derives from the
+//	              whole-core simulation's record of real rounds. Says nothing about the real scheduler;
+//	              the expected verdict per round is written to -expect.
 package main
 
 import (
